@@ -72,6 +72,8 @@ ScriptOmitAssign == <<TxnSlot(1, {Omit("E")}, {Reg("A", Q("X", 3, 0)), Reg("A", 
 AsQ == {NoQ, Q("X", 1, 0), Q("X", 3, 0), Q("X", 0, 0), Q("Y", -2, 0), Bare0}
 AsPosts == {RegX(a, q, NoEx, NoEx, s) : a \in {"A"}, q \in {Q("X", 1, 0), Q("X", -1, 0), Q("Y", -2, 0), Q("X", 2, 0)}, s \in AsQ}
            \cup {RegX("B", Q("X", -1, 0), NoEx, NoEx, s) : s \in {NoQ, Q("X", -1, 0), Q("X", -2, 0)}}
+           \* a posting that moves nothing (`A  0 = ..`, `A  0 X = ..`) still has its assertion checked
+           \cup {RegX("A", q, NoEx, NoEx, s) : q \in {Bare0, Q("X", 0, 0)}, s \in AsQ \ {NoQ}}
            \cup {Omit("E"), Omit("A")} \cup {Assign("A", Q("X", 2, 0)), Assign("A", Bare0)}
 As1Posts == {RegX("A", Q("X", 1, 0), NoEx, NoEx, s) : s \in {NoQ, Q("X", 1, 0), Q("X", 3, 0)}} \cup {Reg("A", Q("Y", -2, 0)), Omit("E")}
 ScriptAssert == <<TxnSlot(1, As1Posts, As1Posts, 1, 3), TxnSlot(2, AsPosts, AsPosts, 1, 2)>>
